@@ -710,6 +710,8 @@ class Peer:
         # Timing instrumentation for peer message loop
         peer_loop_timer = LoopTimer(f'peer_main_{self.id()}', warn_threshold_ms=50)
 
+        pending_read: asyncio.Future[Message] | None = None
+
         try:
             while not self._teardown:
                 peer_loop_timer.start()
@@ -722,10 +724,16 @@ class Peer:
                     self._neighbor.previous = None
                     self._neighbor = None
 
-                # Read message with timeout
-                try:
-                    message = await asyncio.wait_for(self.proto.read_message(), timeout=0.1)
-                except asyncio.TimeoutError:
+                # Read message with timeout. The pending read is kept across iterations and not
+                # cancelled on timeout: cancelling it dropped the bytes already received of a
+                # message split over several TCP segments and desynchronised the stream
+                if pending_read is None:
+                    pending_read = asyncio.ensure_future(self.proto.read_message())
+                await asyncio.wait({pending_read}, timeout=0.1)
+                if pending_read.done():
+                    completed_read, pending_read = pending_read, None
+                    message = completed_read.result()
+                else:
                     message = _NOP
                     await asyncio.sleep(0)
 
@@ -770,6 +778,12 @@ class Peer:
         except Exception as exc:
             log.error(lazyexc('async.mainloop.exception error={exc}', exc), self.id())
             raise
+        finally:
+            if pending_read is not None:
+                if not pending_read.done():
+                    pending_read.cancel()
+                elif not pending_read.cancelled():
+                    pending_read.exception()  # retrieved: the session is ending anyway
 
         # Graceful restart handling
         log.debug(
